@@ -74,37 +74,59 @@ func TestVerifC18SM4(t *testing.T) {
 		return
 	}
 	rng := hk.NewRNG(hk.Seed(), "c18sm4")
-	// ---- Go tables
-	for x := 0; x < 256; x++ {
-		if sbox[x] != ref.SM4Sbox[x] {
-			r.Violation("sbox-entry-wrong", hk.D{"x": x, "got": sbox[x], "want": ref.SM4Sbox[x]})
-		}
-		for ti, tb := range []*[256]uint32{&s0, &s1, &s2, &s3} {
-			want := ref.SM4L(uint32(ref.SM4Sbox[x]) << uint(24-8*ti))
-			if tb[x] != want {
-				r.Violation(fmt.Sprintf("t-table-entry-wrong:s%d", ti), hk.D{"x": x, "got": fmt.Sprintf("%08x", tb[x]), "want": fmt.Sprintf("%08x", want)})
+	// ---- Go tables (walked at start, and again after the package has been used: they are live state)
+	for phase := 0; phase < 2; phase++ {
+		if phase == 1 {
+			for _, asm := range paths() {
+				withAsm(asm, func() {
+					for q := 0; q < 40; q++ {
+						key := rng.Bytes(16)
+						blk, err := NewCipher(key)
+						if err != nil {
+							continue
+						}
+						b := rng.Bytes(32)
+						hk.Try(func() { blk.Encrypt(b, b); blk.Decrypt(b[16:], b[:16]) })
+						if a, err := newAEAD(key, []int{12, 13, 16, 129}[q%4], 16); err == nil {
+							n := rng.Bytes(a.NonceSize())
+							ct := a.Seal(nil, n, rng.Bytes(rng.Intn(300)), rng.Bytes(rng.Intn(40)))
+							hk.Try(func() { a.Open(nil, n, ct, nil) })
+						}
+					}
+				})
 			}
 		}
-	}
-	r.EvalN("table:sbox", 256)
-	r.EvalN("table:s0", 256)
-	r.EvalN("table:s1", 256)
-	r.EvalN("table:s2", 256)
-	r.EvalN("table:s3", 256)
-	for i := 0; i < 32; i++ {
-		if ck[i] != ref.SM4CK[i] {
-			r.Violation("ck-entry-wrong", hk.D{"i": i, "got": fmt.Sprintf("%08x", ck[i]), "want": fmt.Sprintf("%08x", ref.SM4CK[i])})
+		for x := 0; x < 256; x++ {
+			if sbox[x] != ref.SM4Sbox[x] {
+				r.Violation("sbox-entry-wrong", hk.D{"x": x, "got": sbox[x], "want": ref.SM4Sbox[x]})
+			}
+			for ti, tb := range []*[256]uint32{&s0, &s1, &s2, &s3} {
+				want := ref.SM4L(uint32(ref.SM4Sbox[x]) << uint(24-8*ti))
+				if tb[x] != want {
+					r.Violation(fmt.Sprintf("t-table-entry-wrong:s%d", ti), hk.D{"x": x, "got": fmt.Sprintf("%08x", tb[x]), "want": fmt.Sprintf("%08x", want)})
+				}
+			}
 		}
-	}
-	r.EvalN("table:ck", 32)
-	for i, v := range []uint32{fk0, fk1, fk2, fk3} {
-		if v != ref.SM4FK[i] {
-			r.Violation("fk-entry-wrong", hk.D{"i": i})
+		r.EvalN("table:sbox", 256)
+		r.EvalN("table:s0", 256)
+		r.EvalN("table:s1", 256)
+		r.EvalN("table:s2", 256)
+		r.EvalN("table:s3", 256)
+		for i := 0; i < 32; i++ {
+			if ck[i] != ref.SM4CK[i] {
+				r.Violation("ck-entry-wrong", hk.D{"i": i, "got": fmt.Sprintf("%08x", ck[i]), "want": fmt.Sprintf("%08x", ref.SM4CK[i])})
+			}
 		}
-	}
-	r.EvalN("table:fk", 4)
-	if BlockSize != 16 {
-		r.Violation("blocksize-constant-wrong", hk.D{})
+		r.EvalN("table:ck", 32)
+		for i, v := range []uint32{fk0, fk1, fk2, fk3} {
+			if v != ref.SM4FK[i] {
+				r.Violation("fk-entry-wrong", hk.D{"i": i})
+			}
+		}
+		r.EvalN("table:fk", 4)
+		if BlockSize != 16 {
+			r.Violation("blocksize-constant-wrong", hk.D{})
+		}
 	}
 	r.Sample(hk.D{"table": "s2", "x": 0x37, "derivation": "L(sbox[x] << 8)", "value": fmt.Sprintf("%08x", s2[0x37])})
 
